@@ -14,6 +14,8 @@
 (*   PassThrough     a TAL-free document expands to an equivalent token stream (elements,     *)
 (*                   attributes, text, comments)                                              *)
 (*   Idempotent      ... and expanding the result again changes nothing                        *)
+(*                   (RawTextEscaped: the one class of documents - script/style content with  *)
+(*                   < > & - where both fail in the way the design model predicts)             *)
 (*   ContextRestored after the expansion the caller's Context has the locals, local stack,    *)
 (*                   repeat stack, repeat map and built-ins it had; its globals grew only by  *)
 (*                   explicit global defines and no other global changed                      *)
@@ -30,6 +32,7 @@ MergeText(toks, i) ==        \* adjacent text tokens are one text; empty texts v
             ELSE IF k.t = "text" /\ Len(r) > 0 /\ r[1].t = "text" THEN <<[k EXCEPT !.s = @ \o r[1].s]>> \o Tail(r)
             ELSE <<k>> \o r
 NormToks(toks) == MergeText(toks, 1)
+NoRText(toks) == SelectSeq(toks, LAMBDA k : k.t # "rtext")
 
 \* ---- Context snapshots: [l, g: <<[n, v]>>, nls, nrs, rm: <<names>>, builtins, repeat_is_rm] ----------------------
 Names(nv) == {nv[i].n : i \in DOMAIN nv}
@@ -49,8 +52,10 @@ Judge18(f) ==
     ELSE IF ~Sem!AsksStructure(Ref.t) /\ (Sem!Skel(f.toks) # Sem!Skel(Ref.t) \/ Sem!AllText(f.toks) # Sem!AllText(Ref.t)) THEN "Escaped"
     ELSE IF ~Sem!AsksStructure(Ref.t) /\ Sem!AttrSkel(f.toks) # Sem!AttrSkel(Ref.t) THEN "AttrEscaped"
     ELSE IF ~TI.py /\ f.canary > 0 THEN "PythonGated"
-    ELSE IF TalFree /\ NormToks(f.toks) # NormToks(Ref.t) THEN "PassThrough"
-    ELSE IF TalFree /\ f.doc2 # f.doc THEN "Idempotent"
+    \* the recorded defect RawTextEscaped: the content of script/style elements is entity-escaped like ordinary text
+    ELSE IF TalFree /\ NormToks(f.toks) # NormToks(Ref.t)
+         THEN (IF Sem!HasRawMarkup(TI.tree, 1) /\ NoRText(NormToks(f.toks)) = NoRText(NormToks(Ref.t)) THEN "RawTextEscaped" ELSE "PassThrough")
+    ELSE IF TalFree /\ f.doc2 # f.doc THEN (IF Sem!HasRawMarkup(TI.tree, 1) THEN "RawTextEscaped" ELSE "Idempotent")
     ELSE IF ~Restored18(TI.before, f.after) THEN "ContextRestored"
     ELSE "ok"
 
